@@ -8,9 +8,11 @@
 
    Answers: `ok <set as one hexadecimal number>` | `ub` (signed overflow) | `big` (an index ≥ 2^17
    reaches the bitmap layer: outside the differential domain) | `fail` | `err` | `hang` |
-   `ok <filesize> <totalread>`. -/
+   `ok <filesize> <totalread>`.
+   The ops NI NU NQ NX MI HP CN MP AD AR are answered by Driver/LinuxFs.lean (see there). -/
 import Hw.Io.LinuxParse
 import Driver.Strings
+import Driver.LinuxFs
 namespace Driver.LinuxParseEng
 open Hw Hw.LinuxParse Driver
 
@@ -51,6 +53,10 @@ def step (u : Unit) (line : String) : Unit × String :=
         let oob := ws.any (fun w => decide (w.2.2 < w.1 + w.2.1)) || decide (al ≤ tot)
         (u, "ok " ++ toString fs ++ " " ++ toString tot ++ (if oob then " OOB" else ""))
     | _, _ => (u, "bad-op")
-  | _ => (u, "bad-op")
+  | _ =>
+    -- numeric / meminfo / hugepages readers and the cgroup handling: Driver/LinuxFs.lean
+    match LinuxFsEng.step line with
+    | some r => (u, r)
+    | none => (u, "bad-op")
 
 end Driver.LinuxParseEng
